@@ -452,6 +452,42 @@ CHECKS["C18"] = {
     ],
 }
 
+# ---- stages added in the later rounds: their part of each claim ------------------------------
+_MORE = {
+    "C05": (" Stage client-stream-e2e: pion's own client on a STUNConn against pion's own server over simnet TCP - datagrams of every "
+            "length (0-12, around 1200 and 1500) in both directions, first over Send / Data indications, then over ChannelData once the "
+            "bindings stand, from bound ports and from a port the client never wrote to, payloads that are themselves well-formed frames; "
+            "each arrives exactly once, byte-identical, attributed to its sender. The script world also has stream clients that write "
+            "their frames in two segments, Send steps whose relay write fails and PeerData steps whose server-side write fails."),
+    "C09": (" Stage tls-listener: a real crypto/tls listener over simnet; parties that stay silent, send a prefix of a genuine "
+            "ClientHello, garbage instead of a handshake or garbage after it; a well-formed party must be served within 5 s of virtual time. "
+            "Stage client-responses: a scripted server answers the client's own requests with well-formed but hostile content (LIFETIME 0 / "
+            "2^32-1 / absent, missing addresses, odd error codes, wrong class or method, silence) and counts requests per instant of the "
+            "clock (a spinning client); every API call returns within a minute. Stage client-stream: the client on a STUNConn fed well-framed "
+            "frames of hostile size. The UDP stage also requires that a STUN success/error response is never answered."),
+    "C13": (" Readers also call ReadFrom again after a timeout without moving the deadline, move it on without clearing it (idle timeout), "
+            "use deadlines centuries ahead and at the epoch; Close with an expired deadline set and with a failing socket write; an "
+            "application that re-fills one address variable for every write. Stage concurrent-first-writes (race build): 2-16 writers "
+            "released together against a fresh peer, 50-200 rounds per case. Stage reallocation: several relayed sockets in succession on "
+            "one client, stale and repeated Close."),
+    "C14": (" Crowds of 12-160 further peer hosts are written to once and probed in every segment from a port the client never wrote to; "
+            "the application may name a peer now in the 16-byte, now in the 4-byte form; sockets are closed and re-allocated (also right "
+            "after the burst at the nonce horizon)."),
+    "C15": (" Stage tls-listener-teardown: the TLS parties of C09 (completed, failed and pending handshakes), then Server.Close: no "
+            "accepted connection may be left open at the server's end. The world stage also has ChannelBind requests sent at the very "
+            "instant the allocation expires and Server.Close with a relay socket whose Close reports an error."),
+    "C16": (" Also: Connect naming the peer in the IPv4-mapped spelling, a valid ConnectionBind whose sender hangs up before the answer, "
+            "ConnectionBind on the control connection itself, connection ids drawn by a repeating random source (collisions on demand), and "
+            "worlds whose relay listeners and outgoing connections come from the library's static generator bound to the wildcard address."),
+    "C18": (" Stage stalled-stream-client: a stream client with a small receive window stops reading while its relay sits in a blocked "
+            "write; the allocation is torn down meanwhile (own Refresh 0, lifetime, hang-up, channel expiry); AllocationCount and another "
+            "client's Refresh must be served - a frozen bubble is reported by a wall-clock watchdog. Stage client-tcp-close-race: Close of a "
+            "client TCP allocation while ConnectionAttempt indications arrive. The client storm also has the application calling "
+            "Client.CreatePermission and reading Realm()/Username() concurrently."),
+}
+for _pid, _txt in _MORE.items():
+    CHECKS[_pid]["claim"] += _txt
+
 CHECKS["C10"]["stages"].append(
     {"name": "native-fuzz", "pkg": "pure", "run": "^$", "fuzz_only": True,
      "thorough": {"shards": 1, "fuzz": "^FuzzC10$", "fuzztime": "90s", "parallel": 16, "timeout_s": 600}})
